@@ -458,6 +458,8 @@ pub struct Seen {
     pub asked: usize,
     /// number of sets received in lean mode (not remembered individually)
     pub lean_sets: usize,
+    /// sets that changed while the consumer was still holding them
+    pub changed_while_lent: usize,
 }
 
 pub struct MockResult {
@@ -563,11 +565,17 @@ pub fn run_mock(sc: &Scenario) -> MockResult {
                         } else {
                             seen.sets.push((set.tag, b, payload_ok, own));
                         }
+                        let (tag0, sum0, len0) = (set.tag, checksum(&set.payload), set.payload.len());
                         if consumer == Consumer::Slow {
                             closure_delay(2);
                             std::thread::sleep(Duration::from_micros(50));
                         } else {
                             closure_delay(2);
+                        }
+                        // the set is lent to the consumer until the next call of next(): it must not
+                        // change meanwhile (e.g. by being recycled to the reader too early)
+                        if set.tag != tag0 || set.batch != Some(b) || set.payload.len() != len0 || checksum(&set.payload) != sum0 {
+                            seen.changed_while_lent += 1;
                         }
                     }
                 }
@@ -739,6 +747,13 @@ pub fn check_mock(sc: &Scenario, res: &MockResult, entries: &[Entry], findings: 
                     f("C15", "init-error-lost", format!("dataset_init call {} failed but the call returned Ok", k))
                 }
                 _ => {}
+            }
+            if seen.changed_while_lent > 0 {
+                f(
+                    "C07",
+                    "set-changed-while-lent",
+                    format!("{} record sets changed while the consumer was still holding them", seen.changed_while_lent),
+                );
             }
             let batches: Vec<u64> = seen.sets.iter().map(|s| s.1).collect();
             let mut sorted = batches.clone();
@@ -1299,6 +1314,15 @@ macro_rules! real_impl {
                                     s.set_sizes.push(k);
                                 }
                                 closure_delay(2);
+                                // still the same records after the pause (the set is lent until the next call)
+                                let mut k2 = 0;
+                                for rec in &*set {
+                                    if out.get(k2) != Some(&hash(&rec)) {
+                                        s.recs.push((id_index(rec.head()), false));
+                                        break;
+                                    }
+                                    k2 += 1;
+                                }
                                 if let Some(st) = stop {
                                     if s.recs.len() >= st {
                                         s.stopped_early = true;
